@@ -131,9 +131,9 @@ def _parse_op(description, el_op, invocation, allow_concat=False, implicit_outpu
     # Determin output expression if it is not given
     if len(op.children) == 1:
         if implicit_output == "bijective":
-            if len(el_op.children[0].children) == 1 and len(el_op.children[1].children) == 1 and el_op.children[0] == el_op.children[1]:
-                # single input == single output
-                # -> Use input expression as output expression
+            if el_op.children[0] == el_op.children[1]:
+                # input signature == output signature (a single tensor, or several tensors mapped one-to-one)
+                # -> Use input expression(s) as output expression(s)
                 exprs_out = [expr_in.__deepcopy__() for expr_in in exprs_in]
             elif len(el_op.children[0].children) == 1 and len(el_op.children[1].children) == 1 and el_op.children[1].children[0].ndim == 0:
                 # Single input and single scalar output
